@@ -1268,3 +1268,34 @@ def _xpat(p, v):
         return _xpat(p["sub"], v)
     return False
 
+
+
+def run_extra(ctx):
+    """rules armed after run(): they need nothing from run()'s locals"""
+    mpq = ctx.prog.crate("wow_mpq")
+    # whether a sectored file carries a checksum table is *inferred* from the first sector offset — a value no checksum protects.
+    # The arm of read_sectored_file that goes on without a table (SECTOR_CRC set, table judged absent) must therefore cross-check
+    # the inference against the block's own extent before it returns unverified bytes: an error exit in that arm whose condition
+    # compares a sector offset with the block's stored size
+    R = ctx.rule("C10.table-absent-inference-is-cross-checked", "in read_sectored_file the arm that assigns no checksum table although the SECTOR_CRC flag is set contains an error exit whose condition relates the last sector offset to compressed_size", floor=1)
+    f = mpq.fns.get("wow_mpq::archive::Archive::read_sectored_file")
+    if f is None or not f.hir:
+        ctx.bad(R, "read_sectored_file|missing", "-", "function not found", "anchor gone")
+        return
+    ctx.saw_fn(f)
+    outer = next((n for n in hirq.find(f.hir["body"], "if") if re.search(r"has_sector_crc\(\)", hirq.render(n["c"])) and any(x.get("k") == "assign" and "Some(" in hirq.render(x["r"]) for x in hirq.walk(n["then"]))), None)
+    if outer is None:
+        ctx.bad(R, "read_sectored_file|shape", f.where, "the SECTOR_CRC branch that loads the checksum table was not recognised", "shape changed")
+        return
+    infer = next((n for n in hirq.find(outer["then"], "if") if n.get("else") is not None and any(x.get("k") == "assign" and "Some(" in hirq.render(x["r"]) for x in hirq.walk(n["then"]))
+                  and not any(x.get("k") == "assign" and "Some(" in hirq.render(x["r"]) for x in hirq.walk(n["else"]))), None)
+    if infer is None:
+        ctx.bad(R, "read_sectored_file|shape", f.where, "the if/else that decides whether a table is present was not recognised", "shape changed")
+        return
+    guards = [g for g in hirq.find(infer["else"], "if") if any(x.get("k") == "ret" and "Err" in hirq.render(x.get("e")) for x in hirq.walk(g["then"]))
+              and re.search(r"compressed_size", hirq.render(g["c"])) and re.search(r"offset", hirq.render(g["c"]))]
+    if guards:
+        ctx.ok(R, {"fn": "read_sectored_file", "cross_check": hirq.render(guards[0]["c"])[:80]})
+    else:
+        ctx.bad(R, "read_sectored_file|table-absent-unchecked", "%s:%d" % (f.file, infer.get("ln") or 0), "the arm that proceeds without a checksum table has no error exit relating the sector offsets to compressed_size",
+                "a single flipped bit in the first sector offset (which nothing protects) makes the reader conclude there is no table, skip every sector checksum and return other bytes as the file's content")
